@@ -379,3 +379,48 @@ func vh_C16_pniels_chain() {
 	ys, xa, Z := vFE(&q1.ysubx), vFE(&q1.xaddy), vFE(&q1.z)
 	vIsSum(xa.Sub(ys), xa.Add(ys), Z.Mul(vZi(2)), b, a, 1, "pnielsAdd(d, fullToPniels(p))")
 }
+
+// ---------------------------------------------------------------------------
+// DoubleScalarmultVartime, inductive step: ONE iteration of the main loop started at its header from an ARBITRARY
+// accumulator a P + b B (projective form, as every iteration leaves it), with the precomputed table
+// pre1[k] = [2k+1] P (established by vh_C16_DoubleScalarmultVartime: the precomputation runs before the loop) and
+// arbitrary sliding-window digits at position i: afterwards the accumulator is 2 (a P + b B) + d1 P + d2 B in
+// projective form and i has decreased by one.  With the base case (accumulator = neutral element at the first
+// non-zero position: the windows harness above) this covers digit strings of any shape by induction.
+func vh_C16_DoubleScalarmultVartime_step() {
+	i := [...]int{0, 1, 77, 255}[vCase(0, 3)]
+	vCutGroup()
+	vNote("double-base main loop, one iteration from an arbitrary accumulator and arbitrary digits at position i in {0, 1, 77, 255}")
+	var slide1, slide2 [256]int8
+	d1, d2 := vI8("d1"), vI8("d2")
+	z1, o1 := d1 == 0, d1&1 == 1
+	z2, o2 := d2 == 0, d2&1 == 1
+	vAssume(z1 != o1)
+	vAssume(z2 != o2)
+	vAssume(d1 >= -15)
+	vAssume(d1 <= 15)
+	vAssume(d2 >= -63)
+	vAssume(d2 <= 63)
+	slide1[i], slide2[i] = d1, d2
+	var pre1 [s1TableSize]ge25519pniels
+	for k := 0; k < s1TableSize; k++ {
+		vgPut(&pre1[k].ysubx, &pre1[k].xaddy, &pre1[k].z, &pre1[k].t2d, vGid{vZi(2*k + 1), vZi(0)}, 2)
+	}
+	a, b := vZfresh("acc_a"), vZfresh("acc_b")
+	var r, p1 Ge25519
+	vgPut(&r.x, &r.y, &r.z, &r.t, vGid{a, b}, 1)
+	vFEset(&r.t, vZfresh("stale_T"), vUniform(vSReduced))
+	var t ge25519p1p1
+	var s1, s2 modm.Bignum256
+	vReach("an arbitrary accumulator")
+	cont := vLoopStep(DoubleScalarmultVartime, 4, &r, &p1, &s1, &s2, "@loop", 2, "i", i, "slide1", &slide1, "slide2", &slide2, "pre1", &pre1, "t", &t)
+	vAssert(cont == 1, "the iteration returns to the loop header")
+	if cont != 1 {
+		return
+	}
+	vAssert(vLoopOutInt("i") == i-1, "the position decreases by one")
+	vAssert(vgMarked(&r.x, &r.y, &r.z, &r.t, false), "the accumulator is a projective point produced by the group operations")
+	id := vgId(&r.x)
+	vAssert(id.a.Eq(a.Mul(vZi(2)).Add(vZi(int(d1)))), "coefficient of P: 2 a + d1")
+	vAssert(id.b.Eq(b.Mul(vZi(2)).Add(vZi(int(d2)))), "coefficient of B: 2 b + d2")
+}
